@@ -5,3 +5,5 @@ import Desert.Props.C06
 #print axioms C06.chunk_confinement
 #print axioms C06.decKnown_length
 #print axioms C06.array_exact_known
+#print axioms C06.decode_honest_total
+#print axioms C06.errors_agree_total
